@@ -922,6 +922,13 @@ class EvolveAppTask(BaseEvolutionTask):
                     #
                     # There's not much we can do to share this logic between
                     # here and prepare().
+                    if batch_task.app_sig_is_new:
+                        # The app is being installed for the first time. Its
+                        # models are created in their final form and all its
+                        # evolutions are only recorded as applied, same as
+                        # in prepare(). None of them must be executed.
+                        continue
+
                     if batch_task._evolutions:
                         # Custom evolutions were passed to the task. Build the
                         # list of mutations for all evolutions in this task
